@@ -349,9 +349,14 @@ func (s *transactionStore) Watch(ctx context.Context, ch chan<- configapi.Transa
 						close(ch)
 						return
 					}
-					ch <- configapi.TransactionEvent{
+					select {
+					case ch <- configapi.TransactionEvent{
 						Type:        configapi.TransactionEvent_REPLAYED,
 						Transaction: *transaction,
+					}:
+					case <-ctx.Done():
+						close(ch)
+						return
 					}
 				}
 			} else {
@@ -377,9 +382,14 @@ func (s *transactionStore) Watch(ctx context.Context, ch chan<- configapi.Transa
 					transaction := entry.Value
 					transaction.Index = configapi.Index(entry.Index)
 					transaction.Version = uint64(entry.Version)
-					ch <- configapi.TransactionEvent{
+					select {
+					case ch <- configapi.TransactionEvent{
 						Type:        configapi.TransactionEvent_REPLAYED,
 						Transaction: *transaction,
+					}:
+					case <-ctx.Done():
+						close(ch)
+						return
 					}
 				}
 			}
@@ -388,7 +398,16 @@ func (s *transactionStore) Watch(ctx context.Context, ch chan<- configapi.Transa
 		for {
 			select {
 			case event := <-eventCh:
-				ch <- event
+				select {
+				case ch <- event:
+				case <-ctx.Done():
+					close(ch)
+					go func() {
+						for range eventCh {
+						}
+					}()
+					return
+				}
 			case <-ctx.Done():
 				close(ch)
 				go func() {
